@@ -173,6 +173,18 @@ PROPS["C12"] = dict(
     assumptions=["driver /verif/drivers/simd_inst.cpp instantiates the evaluator for the listed contexts"],
 )
 
+PROPS["C09"] = dict(
+    level="other",
+    claim="In each of the 41 index resolve_optype specialisations with a compile-time branch, that branch is defined as the paired run-time function applied to to_value_v of the specialisation's own parameters in parameter order, and every ct<>/clipped<> constant it builds is an unmodified element of that call's result - so the value computed at compile time is the value the run-time code computes, by construction. Agreement between fixed-rank and run-time-length loop branches, STL vs non-STL and compiler independence are not decided (E1 instantiates std and utl container kinds for the functions it covers).",
+    note=E2_NOTE,
+    technique="static: custom libTooling extractor + by-construction rule on type-level branches (argument order, unmodified result)",
+    e2=[dict(rule="R-CONSTBRANCH")],
+    rule="E2: one instance per resolve_optype<void, index::TAG_t, ...> specialisation that builds constants; distinct by (file, specialisation arguments)",
+    explanation="A hand-written type-level computation, a swapped to_value argument or a post-adjusted constant (ct<at(result,i)+1>) is a structural deviation and is reported with the specialisation.",
+    not_decided="branch-to-branch agreement inside one run-time function, Boost/STL/utl container independence beyond E1's kinds, gcc vs clang",
+    assumptions=["exception tables tools/constbranch_tables.json (12 entries, one reason each)"],
+)
+
 HOOK_COMMITS = []
 NOT_APPLICABLE = [
  dict(property_id="C05", reason="slice lengths go through ceil(float) and an 8-way sign/None case split on run-time values; no sound static argument in reach, and weaker structural proxies are not necessary conditions (DESIGN §3 C05)"),
